@@ -110,6 +110,14 @@ func (w *World) intBoundD(v ssa.Value, at ssa.Instruction, d int) (lo, hi int64,
 			lo, hi, known = l1, h1, true
 		}
 	case *ssa.Phi:
+		if bnd, isLoop := countedLoop(x); isLoop {
+			_, bh, bk := w.intBoundD(bnd, x.Block().Instrs[0], d+1)
+			lo, known = max64(lo, 0), true
+			if bk {
+				hi = min64(hi, bh-1)
+			}
+			break
+		}
 		// loop counters and merged values: join of the edges when all are known (no widening: give up on cycles)
 		var jl, jh int64 = inf, -inf
 		all := true
@@ -699,4 +707,70 @@ func (w *World) globalLen(g *ssa.Global, d int) (lo, hi int64, ok bool) {
 		return 0, inf, false
 	}
 	return w.lenBoundD(stores[0].Val, stores[0], d+1)
+}
+
+// countedLoop recognises an induction variable i = φ(0, i+1) whose every value in the loop body
+// satisfies 0 <= i < B, in both the classic form (header test i < B) and the rotated form that
+// go/ssa emits for `for i := range n` (entry guarded by 0 < B, back edge by i+1 < B).
+// It returns the SSA value of the bound B.
+func countedLoop(ph *ssa.Phi) (bound ssa.Value, ok bool) {
+	if len(ph.Edges) != 2 {
+		return nil, false
+	}
+	blk := ph.Block()
+	var initIdx, stepIdx = -1, -1
+	for i, e := range ph.Edges {
+		if c, isC := constOf(e); isC {
+			if n, _ := constInt64(c.Value); n == 0 && c.Value != nil {
+				initIdx = i
+			}
+		} else if bo, isB := e.(*ssa.BinOp); isB && bo.Op == token.ADD && bo.X == ssa.Value(ph) {
+			if c, isC := constOf(bo.Y); isC {
+				if n, _ := constInt64(c.Value); n == 1 {
+					stepIdx = i
+				}
+			}
+		}
+	}
+	if initIdx < 0 || stepIdx < 0 {
+		return nil, false
+	}
+	step := ph.Edges[stepIdx]
+	// classic: header block ends with If (φ < B), body on the true edge
+	if ifi, isIf := blk.Instrs[len(blk.Instrs)-1].(*ssa.If); isIf {
+		if bo, isB := stripConv(ifi.Cond).(*ssa.BinOp); isB && bo.Op == token.LSS && bo.X == ssa.Value(ph) {
+			return bo.Y, true
+		}
+	}
+	// rotated: both predecessors end with If whose true edge enters blk
+	var b1, b2 ssa.Value
+	for i, p := range blk.Preds {
+		ifi, isIf := p.Instrs[len(p.Instrs)-1].(*ssa.If)
+		if !isIf || p.Succs[0] != blk {
+			return nil, false
+		}
+		bo, isB := stripConv(ifi.Cond).(*ssa.BinOp)
+		if !isB || bo.Op != token.LSS {
+			return nil, false
+		}
+		if i == initIdx {
+			c, isC := constOf(bo.X)
+			if !isC {
+				return nil, false
+			}
+			if n, _ := constInt64(c.Value); n != 0 {
+				return nil, false
+			}
+			b1 = bo.Y
+		} else {
+			if bo.X != step {
+				return nil, false
+			}
+			b2 = bo.Y
+		}
+	}
+	if b1 != nil && b2 != nil && (b1 == b2 || render(b1) == render(b2)) {
+		return b1, true
+	}
+	return nil, false
 }
